@@ -201,7 +201,7 @@ class Replayer:
         bk = side.backend
         if bk in ("postgres", "mssql"):
             return self.build_only(node, beh, k, side, tbl, obs)
-        if bk == "sqlite" and self.opts.get("buildq"):
+        if bk == "sqlite" and self.opts.get("buildq") and tbl._cache.backend.backend_name != "polars":     # not after a collect()
             self.build_only(node, beh, k, side, tbl, obs, append=False)
         # --- metadata accessors (C11)
         try:
@@ -487,7 +487,26 @@ class Replayer:
         """C20: ColExpr.export of an EXPRESSION over the table (get_expr_as_table is a separate path)"""
         R = self.R
         names = list(df.columns)
-        if obs["part"] or not names:
+        if not names:
+            return
+        if obs["part"]:
+            # a grouped table: an aggregate without partition_by= is evaluated per group, through ColExpr.export like in mutate
+            for n, ty in zip(obs["names"], obs["tys"]):
+                if ty == "int" and n in names and n not in obs["part"]:
+                    try:
+                        agg = tbl[n].sum()       # (a column that came back null-typed from a SQL collect() has no `sum`: not this oracle's business)
+                    except Exception:  # noqa: BLE001
+                        return
+                    try:
+                        got = sorted(map(repr, agg.export(R.pdt.Polars()).to_list()))
+                        want = sorted(map(repr, (tbl >> R.mutate(**{"x__": agg}) >> R.export(R.pdt.Polars()))["x__"].to_list()))
+                        self.stats["expr_export_grouped"] = self.stats.get("expr_export_grouped", 0) + 1
+                        if got != want:
+                            self.fail(node, beh, k, bk, "target", f"ColExpr.export of {n}.sum() on a table grouped by {obs['part']}: {got[:6]} vs mutate {want[:6]}")
+                    except Exception as e:  # noqa: BLE001
+                        if not (bk != "polars" and exc_class(e) in ("SubqueryError", "NotSupportedError")):
+                            self.fail(node, beh, k, bk, "target", f"ColExpr.export of {n}.sum() on a grouped table raised {exc_class(e)}: {e}")
+                    return
             return
         for idx, (n, ty) in enumerate(zip(obs["names"], obs["tys"])):
             if ty == "int" and n in names:
@@ -944,6 +963,9 @@ def replay_file(args):
     """Worker entry: replay all behaviours of one chunk file; returns (stats, failures, events-summary)."""
     path, seed, backends, opts = args
     t0 = time.time()
+    from . import realize as _R
+
+    _R.SRC_FORM = opts.get("src", "eager")       # before the sources are created
     rp = Replayer(seed, backends=tuple(backends), opts=opts)
     rp.R.ALT_FORMS = bool(opts.get("alt"))
     # "generic": casts to float name the generic type Float() instead of Float64() (only used by the typed alphabet of C12, whose
